@@ -105,23 +105,24 @@ def _transform(Xd, Z, t):
 
 
 def classify(Z, Xt, method):
-    """mechanism classifier over the witness geometry (for known-finding matching)."""
+    """mechanism classifier over the witness geometry (for known-finding matching).
+    pair-on-x-pole : rotate_with_quaternion freezes the frame when |1+v_x| < 1e-7, i.e. for a pair vector
+                     (with at least one p-bearing atom) within 4.47e-4 rad of +-x  -> threshold 4.6e-4 rad.
+    pm6-pair-on-z  : RotationMatrixD freezes the azimuth when sqrt(vx^2+vy^2) < 1e-10 (exact +-z alignment)."""
     n = len(Z)
-    amin_x_pp = 9.0
-    amin_z_d = 9.0
+    amin_x = 9.0
+    xymin = 9.0
     for i in range(n):
         for j in range(i + 1, n):
+            if Z[i] <= 1 and Z[j] <= 1:
+                continue
             v = Xt[j] - Xt[i]
             v = v / np.linalg.norm(v)
-            if Z[i] > 1 or Z[j] > 1:
-                ax = math.acos(min(1.0, abs(v[0])))
-                amin_x_pp = min(amin_x_pp, ax)
-            if method == "PM6" and (Z[i] > 1 or Z[j] > 1):
-                az = math.acos(min(1.0, abs(v[2])))
-                amin_z_d = min(amin_z_d, az)
-    if method == "PM6" and amin_z_d < 2e-3:
+            amin_x = min(amin_x, math.atan2(math.hypot(v[1], v[2]), abs(v[0])))
+            xymin = min(xymin, math.hypot(v[0], v[1]))
+    if method == "PM6" and xymin < 1e-9:
         return "pm6-pair-on-z"
-    if amin_x_pp < 1e-3:
+    if amin_x < 4.6e-4:
         return "pair-on-x-pole"
     return None
 
@@ -142,11 +143,24 @@ def run_case(case):
     nat = len(Z)
     Fref = ref["force"][0]
 
+    cur = {}
+
     def upd(name, val, tol):
         r = float(val) / tol
-        if name not in margins or r > margins[name]:
-            margins[name] = r
+        if name not in cur or r > cur[name]:
+            cur[name] = r
         return r > 1.0
+
+    def commit(mech):
+        # margins of comparisons that fall under a listed singular mechanism are kept apart, so that
+        # 'worst_margin' describes the cases on which the property is claimed to hold
+        tgt = margins if mech is None else margins_sing
+        for k, v in cur.items():
+            if k not in tgt or v > tgt[k]:
+                tgt[k] = v
+        cur.clear()
+
+    margins_sing = {}
 
     def net(out, Xc, label, tinfo):
         F = out["force"][0]
@@ -163,6 +177,7 @@ def run_case(case):
 
     for cl, val in net(ref, Xref, "ref", None):
         viol.append({"clause": cl, "mech": classify(Z, Xref, method), "detail": {"value": float(val), "where": "reference orientation"}})
+    commit(classify(Z, Xref, method))
 
     exc_ok = None
     if ref.get("cis_energies") is not None:
@@ -212,9 +227,13 @@ def run_case(case):
                     if upd("d_exc", abs(eo[k] - er[k]), TOL_EXC):
                         bad.append(("excitation-energy-%d" % (k + 1), abs(eo[k] - er[k])))
         bad += net(out, Xt, "t", t)
+        commit(mech)
+        if mech:
+            mon["transforms_in_listed_singular_set"] = mon.get("transforms_in_listed_singular_set", 0) + 1
         for cl, val in bad:
             viol.append({"clause": cl, "mech": mech,
                          "detail": {"value": float(val), "transform": t, "coords": Xt.tolist(), "species": Z}})
     return {"nontrivial": nontrivial, "violations": viol, "margins": margins, "monitors": mon, "cells": cells,
             "obs": {"Etot_ref": float(ref["Etot"][0]), "n_transforms": len(case["transforms"]),
-                    "compared": mon["transforms_compared"], "worst": margins}}
+                    "compared": mon["transforms_compared"], "worst": margins,
+                    "worst_inside_listed_singular_set": margins_sing}}
